@@ -26,7 +26,7 @@
                      reached over IPv4 | 3 dual-stack reached over IPv6 |
                      4 wildcard 0.0.0.0 reached at 127.0.0.2
              proto   0 UDP client | 1 TCP client | 2 TCP client, length prefix in two segments |
-                     3 TCP client sending its query twice on one connection (corpus only)
+                     3 TCP client sending its query twice on one connection (two responses expected)
              mask    bit k set = the upstream drops the (k+1)-th UDP transmission
              delay   every reply of the upstream is sent delay_ms after the query
              dup     1 = every reply is sent twice
@@ -144,7 +144,7 @@ Definition m_ev (m : mrun) (e : dev) : mrun :=
 Fixpoint m_submits (m : mrun) (next : N) (ids : list N) : mrun :=
   match ids with
   | [] => m
-  | i :: r => m_submits (m_ev m (Submit next i IoOk)) (next + 1) r
+  | i :: r => m_submits (m_ev m (Submit next i next IoOk)) (next + 1) r   (* question tag = waiter number: all distinct *)
   end.
 Fixpoint m_replies (m : mrun) (reps : list N) : mrun :=
   match reps with
@@ -152,10 +152,10 @@ Fixpoint m_replies (m : mrun) (reps : list N) : mrun :=
   | g :: r =>
     match map_find g (m_sent m) with
     | Some wire =>
-      (* known-finding class 1: the upstream repeats a reply whose waiter is gone, after the
-         wire id has been taken by a query that is now in flight *)
+      (* (formerly known-finding class 1, F45) the upstream repeats a reply whose waiter is gone,
+         after the wire id has been taken by a query that is now in flight *)
       let hit := d_conn (m_st m) && negb (pending g (d_map (m_st m))) && map_mem wire (d_map (m_st m)) in
-      let m1 := m_ev m (Arrive wire) in
+      let m1 := m_ev m (Arrive wire g) in
       m_replies {| m_st := m_st m1; m_sent := m_sent m1; m_out := m_out m1; m_stale := m_stale m1 || hit |} r
     | None => m_replies m r
     end
@@ -169,10 +169,10 @@ Fixpoint m_phases (m : mrun) (next : N) (ps : list phase) : mrun :=
     m_phases m2 (next + lenN (p_ids p)) r
   end.
 
-Definition code_of_dres (id : N) (l : list dres) : N :=
+Definition code_of_dres (g id : N) (l : list dres) : N :=
   match l with
   | [] => 7
-  | [RReply orig _] => if orig =? id then 0 else 2
+  | [RReply orig _ rq] => if negb (rq =? g) then 1 else if orig =? id then 0 else 2
   | [RErrTcp] => 3
   | [RErrInternal] => 4
   | [RErrSend] => 5
@@ -183,7 +183,7 @@ Definition stale_reuse (ps : list phase) : bool := m_stale (m_phases m_start 0 p
 Definition model_codes (ps : list phase) (nw : nat) : list N :=
   let m := m_phases m_start 0 ps in
   let ids := flat_map p_ids ps in
-  map (fun g => code_of_dres (nth (N.to_nat g) ids 0) (deliveries g (m_out m))) (seqN 0 nw).
+  map (fun g => code_of_dres g (nth (N.to_nat g) ids 0) (deliveries g (m_out m))) (seqN 0 nw).
 
 Definition check_demux (ts : list N) : list N :=
   match ts with
@@ -194,9 +194,9 @@ Definition check_demux (ts : list N) : list N :=
       | Some (impl, []) =>
         let nw := length (flat_map p_ids ps) in
         if negb (lenN impl =? N.of_nat nw) then v_bad
-        else if negb (toks_eqb impl (spec_codes ps nw)) then (if stale_reuse ps then v_known 1 else v_viol 2)
+        else if negb (toks_eqb impl (spec_codes ps nw)) then v_viol 2
         else if negb (toks_eqb impl (model_codes ps nw)) then v_diff (model_codes ps nw)
-        else v_ok (if phases_collide ps 0 [] then 3 else 2)
+        else v_ok (if stale_reuse ps then 7 else if phases_collide ps 0 [] then 3 else 2)
       | _ => v_bad
       end
     | None => v_bad
@@ -250,9 +250,7 @@ Definition inb (lo hi x : N) : bool := (lo <=? x) && (x <=? hi).
 Definition spec_query (t0 : N) (q o : list N) : N :=
   match q, o with
   | [lst; proto; mask; delay; dup; special], [nresp; rcode; own; srcok; idok; utx; ttx] =>
-    if (proto =? 3) && (nresp =? 1) then 102         (* known-finding class 2: the second query on a
-                                                        client TCP connection is never read *)
-    else if negb (nresp =? (if proto =? 3 then 2 else 1)) then 3   (* exactly one response per query *)
+    if negb (nresp =? (if proto =? 3 then 2 else 1)) then 3   (* exactly one response per query *)
     else if negb (srcok =? 1) then 4                 (* from where it was sent to *)
     else if negb (idok =? 1) || (own =? 0) || ((rcode =? 0) && negb (own =? 1)) then 5   (* its own answer *)
     else if (proto =? 0) && (mask mod 16 =? 15) && negb (rcode =? SERVFAIL) then 6       (* silent upstream: SERVFAIL *)
@@ -330,11 +328,28 @@ Definition check_batch (ts : list N) : list N :=
   | _ => v_bad
   end.
 
+(* --------------------------------------------------------------- kind 30 *)
+(* end-to-end rig (real binary in a network namespace, tools/rig.py + rigcases.py):
+   [30; listener; got; from_ok; id_ok]  listener 1 = IPv4-only 127.0.0.1, 2 = second IPv4
+   address 127.0.0.3, 3 = [::1]; got = a reply arrived; from_ok = its source address is the
+   query's destination; id_ok = it echoes the query id.  The model side is (iv)+(v):
+   [reply_dgram] sends from the query's destination (C07_reply_from_query_destination). *)
+Definition check_rig (ts : list N) : list N :=
+  match ts with
+  | [lst; got; from_ok; id_ok] =>
+    if negb ((1 <=? lst) && (lst <=? 3)) then v_bad
+    else if (got =? 0) || (from_ok =? 0) then v_viol 9
+    else if id_ok =? 0 then v_viol 10
+    else v_ok (7 + lst)
+  | _ => v_bad
+  end.
+
 (* ---------------------------------------------------------------- entry *)
 Definition check_C07 (ts : list N) : list N :=
   match ts with
   | 1 :: r => check_cmsg r
   | 3 :: r => check_demux r
   | 4 :: r => check_batch r
+  | 30 :: r => check_rig r
   | _ => v_bad
   end.
